@@ -81,6 +81,7 @@ def subjects(tier, seed):
         ("hh", [2, 2, 2]),
         ("hh", [1, 1, 3]),
         ("hll", [7, 2**63 + salt]),
+        ("log8", [1, 1, 300, 250]),  # five log counters only: the ceiling is reached at once
     ]
     if tier == "thorough":
         subs += [("linear", [3, 1]), ("log8", [1, 3]), ("log16", [3, 2]), ("hh", [3, 2, 1]),
@@ -151,7 +152,8 @@ def diagrams(kind, alpha, tier):
         yield ("D", [("update", (d,))], [("add", (k, v)) for k, v in d.items()])
     # M
     for k in A:
-        for v in (0, 1, 2, 3, 7) + ((10**4,) if big and k == A[0] else ()):
+        sat = (300,) if kind == "log8" and k == A[0] else ()  # crosses the ceiling in one call
+        for v in (0, 1, 2, 3, 7) + sat + ((10**4,) if big and k == A[0] else ()):
             yield ("M", [("add", (k, v))], [("add", (k,))] * (1 if kind == "hll" else v))
     # N
     ab = [A[0][:1] or b"a", b"b", b"\x00"]
